@@ -144,6 +144,9 @@ func runC04(c *Check) {
 		}
 	}
 	c.meanDivisorNeverSkipped()
+	c.nodeSelectionKeepsFlat()
+	c.edgesCarryDivisor()
+	c.pseudoFrameListsFresh()
 	c.seenSetKeys()
 	c.edgeDedupByPair()
 	c.totalAndDivisorTogether()
